@@ -6,7 +6,10 @@ PROP = 'C08'
 KERNELS = ['TAchC_term', 'TchC_term', 'TSC_term', 'CC_term', 'TAC_term', 'TPC_term', 'DC_term']
 THEOREMS = ['C08_TSC_is_classical', 'C08_CC_is_classical', 'C08_TAC_is_classical', 'C08_TPC_is_classical',
             'C08_DC_is_classical', 'C08_TAchC_is_classical', 'C08_TchC_is_classical', 'C08_TSC_stop_independent',
-            'C08_TPC_depends_on_invariant_only', 'C08_seidel_sum_classical', 'C08_third_order_identities']
+            'C08_TPC_depends_on_invariant_only', 'C08_seidel_sum_classical', 'C08_third_order_identities',
+            'C08_TSC_scaling', 'C08_CC_scaling', 'C08_TAC_scaling', 'C08_TPC_scaling', 'C08_DC_scaling', 'C08_TAchC_scaling', 'C08_TchC_scaling',
+            'C08_no_index_step_contributes_nothing', 'C08_spherical_family_stop_independent', 'C08_spherical_sum_stop_independent',
+            'C08_same_marginal_def', 'C08_petzval_family_ray_independent', 'C08_plane_has_no_petzval']
 COQ_TARGETS = ['Model/Seidel.vo']
 TRUSTED_BASE = BASE_TRUSTED + [
     'hand model coq/Model/Seidel.v (precalculated i, i\', B, B\', the loop over surfaces, sums, accessor structure): tied by correspondence with Aberrations.third_order()/accessors',
